@@ -114,13 +114,42 @@ class EnumRNG:
         return out
 
     def shuffle(self, l):
+        """uniform permutation; arrangements that are equal as sequences (repeated hashable elements, e.g. the sentinel
+        lists of interleave_lists) are merged into one branch carrying their total probability - the same law, fewer paths"""
         self.calls.append("shuffle")
-        if len(l) <= 1:
-            return
         n = len(l)
-        perms = list(itertools.permutations(range(n)))
-        i = self._pick([1.0 / len(perms)] * len(perms))
-        vals = [l[j] for j in perms[i]]
+        if n <= 1:
+            return
+        try:
+            counts = {}
+            for x in l:
+                counts[x] = counts.get(x, 0) + 1
+            hashable = True
+        except TypeError:
+            hashable = False
+        if hashable and len(counts) < n:
+            keys = list(counts)
+            arrangements = []
+
+            def rec(prefix, remaining):
+                if len(prefix) == n:
+                    arrangements.append(list(prefix))
+                    return
+                for k in keys:
+                    if remaining[k]:
+                        remaining[k] -= 1
+                        prefix.append(k)
+                        rec(prefix, remaining)
+                        prefix.pop()
+                        remaining[k] += 1
+
+            rec([], dict(counts))
+            i = self._pick([1.0 / len(arrangements)] * len(arrangements))  # every distinct arrangement has the same multiplicity
+            vals = arrangements[i]
+        else:
+            perms = list(itertools.permutations(range(n)))
+            i = self._pick([1.0 / len(perms)] * len(perms))
+            vals = [l[j] for j in perms[i]]
         for j in range(n):
             l[j] = vals[j]
 
